@@ -91,6 +91,29 @@ fn real_main() -> i32 {
 }
 
 fn main() {
+    // deep probes run right here, on the ordinary main-thread stack (that is their point)
+    let args: Vec<String> = std::env::args().collect();
+    if args.len() >= 4 && args[1] == "deep" {
+        let n: usize = args[3].parse().unwrap_or(1000);
+        // automaton probes run on a 1 MiB thread stack (half of Rust's default for spawned threads): the crate's
+        // automaton algorithms are iterative, so depth must not matter; literal probes use the main thread
+        let kind = args[2].clone();
+        let res = if kind.starts_with("auto") {
+            std::thread::Builder::new().stack_size(1 << 20).spawn(move || mon::deep::child(&kind, n)).expect("spawn").join().unwrap_or_else(|_| Err("child thread panicked".to_string()))
+        } else {
+            mon::deep::child(&kind, n)
+        };
+        match res {
+            Ok(line) => {
+                println!("{}", line);
+                std::process::exit(0);
+            }
+            Err(e) => {
+                println!("error {}", e);
+                std::process::exit(4);
+            }
+        }
+    }
     // big stack: the crate recurses on term depth; a stack overflow would abort the process
     let h = std::thread::Builder::new().stack_size(1 << 30).spawn(real_main).expect("spawn");
     let code = h.join().unwrap_or(3);
